@@ -74,7 +74,10 @@ let () =
       verdict ~agree:(local_path_agrees (str root) (str name) (opt_str out)) ~spec:true ~kf:"-"
         ~detail:("model=" ^ (match local_path (str root) (str name) with Ok p -> show_chars p | _ -> "refused"))
     | [L (A "root" :: rs); L [A "tree"; tree]; req; drv; obs; L [A "after"; after]] ->
-      let root = List.map str rs in
+      (* an atom starting with '@' names the spelling of the root in the server's configuration *)
+      let spelled = List.exists (function A s when String.length s > 0 && s.[0] = '@' -> true | _ -> false) rs in
+      if spelled then bump "root_spelled_unclean";
+      let root = List.map str (List.filter (function A s when String.length s > 0 && s.[0] = '@' -> false | _ -> true) rs) in
       let sb = node_of tree and aft = node_of after in
       let r = request_of req drv in
       bump ("method_" ^ string_of_chars r.meth);
